@@ -1,5 +1,6 @@
 import GolibsVerif.Driver.Util
 import GolibsVerif.Spec.C11
+import GolibsVerif.Go.Sort
 
 /-!
 Line protocol of C11 (see `harness/c11.go` for the grammar):
@@ -9,6 +10,8 @@ Line protocol of C11 (see `harness/c11.go` for the grammar):
   C11.sssf <op>,…                     the same on *SortedSliceSet[float64]; values nan, -inf, inf, <int>
   C11.ms   <op>,…                     the same on *MapSet[int]
       set ops: <r>n<v;v;…> <r>z <r>a<v> <r>d<v> <r>h<v> <r>l <r>v <r>r<k> <r>x <r>k<j> <r>e<j> <r>q
+  C11.std.sort <v>,<v>,…              the model of `slices.Sort` (`Go/Sort.lean`) on []int
+  C11.std.bsearch <target> <v>,<v>,…  the model of `slices.BinarySearch` on []int (sorted or not)
 
 Values travel as decimal integers; `nan < -inf < every int < inf` is the order `cmp.Compare`
 puts on float64, so the float family runs on the `Int` model through the order embedding
@@ -192,8 +195,35 @@ def setScript {α} (api : SetApi α) (args : List String) : String :=
     | none => "bad-op"
   | _ => "bad-op"
 
+def parseIntList (s : String) : Option (List Int) :=
+  if s = "-" then some [] else allSome ((s.splitOn ",").map parseInt?)
+
+def stdSort (args : List String) : String :=
+  match args with
+  | [l] =>
+    match parseIntList l with
+    | none => "bad-op"
+    | some xs =>
+      match Slices.sortOrdered (fun a b : Int => decide (a < b)) xs with
+      | .error e => showPanic e
+      | .ok r => if r.isEmpty then "-" else joinWith "," (r.map toString)
+  | _ => "bad-op"
+
+def stdBsearch (args : List String) : String :=
+  match args with
+  | [t, l] =>
+    match parseInt? t, parseIntList l with
+    | some tv, some xs =>
+      match Slices.binarySearchBy (fun e : Int => decide (e < tv)) (fun e => e == tv) xs with
+      | .error e => showPanic e
+      | .ok (i, found) => s!"{i}/{showBool found}"
+    | _, _ => "bad-op"
+  | _ => "bad-op"
+
 def handle (op : String) (args : List String) : Option String :=
   match op with
+  | "C11.std.sort" => some (stdSort args)
+  | "C11.std.bsearch" => some (stdBsearch args)
   | "C11.ring" => some (ring args)
   | "C11.sss" => some (setScript sssApi args)
   | "C11.sssf" => some (setScript sssApi args)
